@@ -17,6 +17,7 @@ from nucs.constants import (
     DOM_UPDATE_EVENTS,
     DOM_UPDATE_IDX,
     EVENT_MASK_MAX,
+    EVENT_MASK_MAX_GROUND,
     EVENT_MASK_MIN,
     EVENT_MASK_MIN_GROUND,
     MAX,
@@ -55,4 +56,8 @@ def split_low_dom_heuristic(
         if shr_domains_stack[cp_cur_idx, dom_idx, MIN] == shr_domains_stack[cp_cur_idx, dom_idx, MAX]
         else EVENT_MASK_MIN
     )
-    return EVENT_MASK_MAX
+    return (
+        EVENT_MASK_MAX_GROUND
+        if shr_domains_stack[cp_cur_idx + 1, dom_idx, MIN] == shr_domains_stack[cp_cur_idx + 1, dom_idx, MAX]
+        else EVENT_MASK_MAX
+    )
